@@ -34,6 +34,7 @@ func main() {
 		os.Exit(3)
 	}
 	debug.SetGCPercent(800)
+	debug.SetMaxStack(256 << 20) // a runaway recursion dies quickly instead of eating 1 GiB first
 	c := run.New(strings.ToUpper(id), os.Args[2:])
 	if pf := os.Getenv("GPV_CPUPROFILE"); pf != "" {
 		fh, err := os.Create(pf)
